@@ -11,6 +11,7 @@ Proof. exact pstep_range. Qed.
 Print Assumptions step_in_range.
 Theorem new_bar_in_range : forall ansi quiet v mx bw mn md cu msg now, range (pb_new ansi quiet v mx bw mn md cu msg now).
 Proof. exact new_range. Qed.
+Print Assumptions new_bar_in_range.
 
 (* ... every frame's bar segment is exactly as wide as configured, and the percentage shown is
    floor(100 * step / max), between 0 and 100 and equal to 100 exactly at the maximum. *)
@@ -20,6 +21,7 @@ Proof. exact render_bar_width. Qed.
 Print Assumptions frame_wf.
 Theorem percent_wf : forall p, range p -> 0 < p_max p -> 0 <= p_step p * 100 / p_max p <= 100.
 Proof. exact percent_bounds. Qed.
+Print Assumptions percent_wf.
 Theorem percent_100_at_max : forall p, 0 < p_max p -> p_step p = p_max p -> p_step p * 100 / p_max p = 100.
 Proof. exact percent_at_max. Qed.
 Print Assumptions percent_100_at_max.
